@@ -80,6 +80,14 @@ type Options struct {
 	Choose  Chooser // nil = Canonical{}
 	MaxJunk int     // > 0: up to that many bytes before %PDF-
 
+	// LooseEndstream lets the chooser omit the end-of-line marker between
+	// the stream data and the keyword endstream when /Length is correct
+	// (direct or indirect).  ISO 32000-1 7.3.8.1 only says there "should" be
+	// one, so such files conform; internal/indep/strict (which judges the
+	// library's own output by the stricter C03 statement) does not accept
+	// them, hence the option.
+	LooseEndstream bool
+
 	// Transform is applied to every top-level object (for streams: to the
 	// dictionary) just before rendering; C10 encrypts strings here.  It is
 	// not applied to cross-reference streams, nor to members of object
@@ -582,7 +590,10 @@ func (w *fileWriter) object(ri int, it *bodyItem) (int, Placed) {
 	p.DataStart = w.off()
 	p.DataLen = len(it.raw)
 	w.raw(it.raw...)
-	w.eol()
+	lenOK := it.stream.LenMode == LenDirect || it.stream.LenMode == LenIndirect
+	if !(w.opt.LooseEndstream && lenOK && w.c.Intn(6) == 5) {
+		w.eol()
+	}
 	w.str("endstream")
 	w.tok([]byte("endobj"))
 	return start, p
